@@ -113,12 +113,16 @@ CLAIMS = {
         "ref": "DESIGN.md §4 C08",
     },
     "C09": {
-        "technique": "Lean 4 round-trip theorems (emitter ∘ reference reader = id) for JSON strings, CSV fields, HTML cells and flat rows + CLI correspondence + Python json/csv/html.parser oracle",
+        "technique": "Lean 4 round-trip theorems (emitter ∘ reference reader = id) for JSON strings, CSV fields, HTML cells and flat rows, and for whole CSV documents and whole JSON arrays of objects (induction over fields, records, members, rows) + CLI correspondence + Python json/csv/html.parser oracle",
         "text": ("Theorems for every value (any characters, any length): serde-style JSON escaping is inverted by an RFC 8259 string reader "
                  "that rejects raw quotes and control characters; RFC 4180 quoting is inverted by the field reader whatever follows the "
                  "field; HTML escaping is inverted by entity decoding and emits no < or > (D18 fixed); tabs/lines/list rows split back when "
-                 "no value contains the separator. Whole-document structure over the four result paths (header/separator/footer protocol) "
-                 "is decided by correspondence (bytes vs model) and by Python's parsers against the `into list` run. Known finding D19 "
+                 "no value contains the separator. Whole documents, for every table (any number of rows and columns, any values): the CSV output "
+                 "read by an RFC 4180 record reader is exactly the list of rows — one record per row, also the lone empty field "
+                 "(csv_record_roundtrip, csv_document_roundtrip); header `[`, rows joined by `,`, footer `]` is read back as one JSON array "
+                 "with one object per row, each object the key/value map the row was written from (json_literal_roundtrip, "
+                 "json_object_roundtrip, json_document_roundtrip). That the four result paths emit header/rows/separators/footer in this "
+                 "shape, and the HTML document, are decided by correspondence (bytes vs model) and by Python's parsers against the `into list` run. Known finding D19 "
                  "(identical column texts share a JSON key) is reported as KNOWN-FINDING."),
         "ref": "DESIGN.md §4 C09",
     },
